@@ -7,9 +7,10 @@ same wire string decoded twice.
   cell     as pv.proto (NI:/NF:/NB: numpy scalars, F:nan a fresh float('nan'), NF:nan the shared np.nan)
   PT:<us>  pd.Timestamp        DT:<us>  datetime.date        HF:<q>|HF:nan  np.float32 (value q/4)
   M8<unit>:<us>  np.datetime64[unit] (unit D|h|s|ms|us|ns) of that instant       NaT:M np.datetime64('NaT')  NaT:m np.timedelta64('NaT')  NaT:P pd.NaT
-  TD:<us>  datetime.timedelta  PD:<us>  pd.Timedelta         m8<unit>:<us>  np.timedelta64[unit] of that duration
+  TD:<us>  datetime.timedelta  PD:<us>  pd.Timedelta         m8<unit>:<us>  np.timedelta64[unit] of that duration (unit W|D|h|m|s|ms|us|ns)
+  m8Y:<n> / m8M:<n> (CM:<n> = m8M:<n>)  np.timedelta64 of n YEARS / MONTHS (review t5: pandas holds no such duration, numpy == says it is the int n)
   (L ..) (T ..) (D (k v)..)    (DC <n> (k v)..)   n=1 pyg_base.Dict, n=2 pyg_base.dictattr
-  (A <dtype i|f|e|b|U|o|Mns|Mus|Ms|MD|mns|mus|mD> (<shape>) cells..)   e = float32, M.. = datetime64[..] (cells T:<us> / NaT:P), m.. = timedelta64[..]
+  (A <dtype i|f|e|b|U|o|Mns|Mus|Ms|MD|mns|mus|mD|mY|mM> (<shape>) cells..)   e = float32, M.. = datetime64[..] (cells T:<us> / NaT:P), m.. = timedelta64[..]
   (cells TD:<us> / NaT:P)        (S (labels) cells..)   (DF (index) (columns) cells row-major..)
 
 ops: (eq eq x y), (eq in x seq), (eq pyeq x y) native == on plain values, (eq eqr x y) the model answers with the raising reading eqR,
@@ -29,11 +30,11 @@ RULE = ('distinct (x, y) protocol lines with x and y spelled differently on whic
 TRUSTED = ['correspondence harness (pv.engine, pv.proto) and the generators / decoder of pv.props.c14',
            'Lean driver parser (PygModel/Basic.lean, EqDriver.lean)']
 ASSUMPTIONS = ['CPython == on None/bool/int/float/str/datetime/date and on lists/tuples/dicts of them is the reference function Cell.pyEq / pyEqV (sampled by the pyeq op)',
-               'numpy scalars, pd.Timestamp and pd.Timedelta are == to the python values the wire format identifies them with; np.datetime64 / np.timedelta64 of any unit are the Timestamp / Timedelta of their instant / duration (that is the repair C14-F6, not an assumption about numpy: numpy own == casts units), pd.NaT is one object',
+               'numpy scalars, pd.Timestamp and pd.Timedelta are == to the python values the wire format identifies them with; np.datetime64 (units D..ns) / np.timedelta64 (units W..ns) are the Timestamp / Timedelta of their instant / duration (that is the repair C14-F6, not an assumption about numpy: numpy own == casts units); an np.timedelta64 in years / months is no Timedelta: it equals only year / month durations of as many months (repair C14-F9; numpy: 12 months to the year, no common unit with days); pd.NaT is one object',
                'np.vectorize(eq) visits every cell of two equally shaped arrays; list(pd.Index) yields the labels as the python / pandas scalars the wire format spells (a NaN among datetime labels is NaT, which the model treats as the NaN label it is spelled as)',
                'object identity (the `x is y` shortcut) is not modelled: every call decodes fresh objects; the shared np.nan object is generated (NF:nan)',
                'numbers are spelled exactly (ints of any size, floats that are multiples of 1/4 - 2**53 and its neighbours included); np.float32 scalars and arrays hold such values exactly',
-               'dict keys are distinct strings; pandas extension arrays and their pd.NA, datetime64 units finer than ns, tz-aware timestamps, complex / Decimal NaN, None labels and Series names are outside the universe']
+               'dict keys are distinct strings; pandas extension arrays and their pd.NA, datetime64 / timedelta64 units finer than ns (ps, fs, as: after C14-F9 such a duration equals only timedelta64s numpy calls equal, never a number - probed, not generated), out-of-bounds datetime64 / timedelta64, tz-aware timestamps, complex / Decimal NaN, None labels and Series names are outside the universe']
 
 D = datetime.datetime
 BIG = 2 ** 53
@@ -55,6 +56,8 @@ def w(x):
         return W('NaT:P')
     if isinstance(x, np.datetime64):
         return W('NaT:M' if np.isnat(x) else 'M8%s:%d' % (np.datetime_data(x.dtype)[0], proto.dt2us(x.astype('M8[us]').item())))
+    if isinstance(x, np.timedelta64) and not np.isnat(x) and np.datetime_data(x.dtype)[0] in ('Y', 'M'):
+        return W('m8%s:%d' % (np.datetime_data(x.dtype)[0], x.astype(int)))      # a calendar duration: the COUNT of years / months (there are no microseconds in a month)
     if isinstance(x, np.timedelta64):
         return W('NaT:m' if np.isnat(x) else 'm8%s:%d' % (np.datetime_data(x.dtype)[0], x.astype('m8[us]').item() // proto.US))
     if isinstance(x, pd.Timedelta):
@@ -93,7 +96,7 @@ def DF(idx, cols, *cells):
 # ---------------------------------------------------------------- decoding into fresh python objects
 
 DTYPES = {'i': np.int64, 'f': np.float64, 'e': np.float32, 'b': bool, 'U': str,
-          'Mns': 'M8[ns]', 'Mus': 'M8[us]', 'Ms': 'M8[s]', 'MD': 'M8[D]', 'mns': 'm8[ns]', 'mus': 'm8[us]', 'mD': 'm8[D]'}
+          'Mns': 'M8[ns]', 'Mus': 'M8[us]', 'Ms': 'M8[s]', 'MD': 'M8[D]', 'mns': 'm8[ns]', 'mus': 'm8[us]', 'mD': 'm8[D]', 'mY': 'm8[Y]', 'mM': 'm8[M]'}
 
 
 class F32(object):
@@ -112,6 +115,8 @@ def dec_cell(a):
     if a.startswith('M8'):
         unit, us = a[2:].split(':')
         return np.datetime64(proto.us2dt(int(us)), 'us').astype('M8[%s]' % unit)[()]
+    if a.startswith('m8Y:') or a.startswith('m8M:') or a.startswith('CM:'):
+        return np.timedelta64(int(a.split(':')[1]), 'Y' if a[2] == 'Y' else 'M')
     if a.startswith('m8'):
         unit, us = a[2:].split(':')
         return np.timedelta64(int(us), 'us').astype('m8[%s]' % unit)[()]
@@ -186,7 +191,9 @@ def _lossy(cells):
 
 def _column(cells, as_objects=False):
     """a pandas column from decoded cells: containers are stored as objects, never expanded"""
-    if as_objects or any(isinstance(c, (list, tuple, dict, np.ndarray, pd.Series, pd.DataFrame)) for c in cells):
+    # (a year / month np.timedelta64 can only be an object cell: pandas refuses the unit in a list and reads an m8[M] ARRAY as average seconds)
+    if as_objects or any(isinstance(c, (list, tuple, dict, np.ndarray, pd.Series, pd.DataFrame)) or
+                         (isinstance(c, np.timedelta64) and np.datetime_data(c.dtype)[0] in ('Y', 'M')) for c in cells):
         a = np.empty(len(cells), dtype=object)
         for i, c in enumerate(cells):
             a[i] = c
@@ -215,7 +222,7 @@ def kind(sx):
 def plain(sx):
     """NaN-free value built from python scalars, lists, tuples and plain dicts only"""
     if isinstance(sx, str):
-        return not sx.endswith(':nan') and sx[:3] not in ('NI:', 'NF:', 'NB:', 'HF:', 'NaT') and sx[:2] not in ('M8', 'm8')    # numpy scalars broadcast under ==; NaT != NaT
+        return not sx.endswith(':nan') and sx[:3] not in ('NI:', 'NF:', 'NB:', 'HF:', 'NaT') and sx[:2] not in ('M8', 'm8', 'CM')    # numpy scalars broadcast under ==; NaT != NaT
     if sx[0] in ('L', 'T'):
         return all(plain(y) for y in sx[1:])
     if sx[0] == 'D':
@@ -246,6 +253,10 @@ def universe():
          d64('2020-01-01'), d64('2020-01-01', 'us'), d64('2020-01-01', 'ns'), d64('2020-01-01T00', 'h'), d64('2020-01-02'), d64('2020-01-02T03', 's'),
          d64('NaT'), t64('NaT'), pd.NaT, [d64('NaT')], [pd.NaT], [d64('2020-01-01')], NS2020,
          t64(1, 'D'), t64(24, 'h'), t64(DAY_NS, 'ns'), TD(days=1), pd.Timedelta(days=1), t64(1, 'us'), t64(2, 'D'), 24, DAY_NS,
+         # year / month durations (review t5, C14-F9): numpy says 1 == 1Y == 12M == 12; no common unit with days
+         t64(1, 'Y'), t64(12, 'M'), t64(1, 'M'), t64(0, 'M'), t64(0, 'D'), t64(365, 'D'), 12, 0.0, [t64(1, 'Y')], [t64(12, 'M')], [12],
+         A('mY', (1,), t64(1, 'Y')), A('mM', (1,), t64(12, 'M')), A('mM', (1,), t64(1, 'M')), A('i', (1,), 12), A('o', (1,), t64(1, 'Y')), A('mD', (1,), TD(days=365)),
+         S([0], t64(12, 'M')), S([0], 12), {'a': t64(1, 'Y')}, {'a': 12},
          # datetime64 / timedelta64 arrays (C14-F7) next to int arrays holding what astype(object) makes of an M8[ns] cell, and to object arrays
          A('Mns', (1,), D(2020, 1, 1)), A('Mus', (1,), D(2020, 1, 1)), A('MD', (1,), D(2020, 1, 1)), A('Ms', (1,), D(2020, 1, 1)), A('i', (1,), NS2020),
          A('o', (1,), D(2020, 1, 1)), A('o', (1,), datetime.date(2020, 1, 1)), A('o', (1,), ts), A('o', (1,), d64('2020-01-01')),
@@ -287,7 +298,8 @@ def universe():
 SCALARS = [None, True, False, 0, 1, -1, 2, 3, 1.0, 2.0, 2.5, -0.25, '', 'a', 'b', 'ab', D(2020, 1, 1), D(2020, 1, 2), datetime.date(2020, 1, 1),
            pd.Timestamp('2020-01-02'), np.int64(1), np.float64(2.5), np.float64(1.0), np.bool_(False), float('inf'),
            BIG, BIG + 1, float(BIG), np.int64(BIG + 1), np.float64(BIG), F32(2.5), F32(1.0),
-           d64('2020-01-01'), d64('2020-01-01', 'ns'), d64('2020-01-02', 'us'), d64('2020-01-02T00', 'h'), t64(1, 'D'), t64(24, 'h'), TD(days=1), TD(days=2), pd.Timedelta(days=2), 24]
+           d64('2020-01-01'), d64('2020-01-01', 'ns'), d64('2020-01-02', 'us'), d64('2020-01-02T00', 'h'), t64(1, 'D'), t64(24, 'h'), TD(days=1), TD(days=2), pd.Timedelta(days=2), 24,
+           t64(2, 'Y'), t64(24, 'M'), t64(2, 'M'), t64(1, 'W'), t64(7, 'D'), 12]
 TIMES = [D(2020, 1, 1), D(2020, 1, 2), D(2020, 1, 2), pd.NaT]
 SPANS = [TD(days=1), TD(days=2), TD(days=2), pd.NaT]
 LABELS = [[0, 1, 2, 3], [1, 2, 3, 4], ['a', 'b', 'c', 'd'], [D(2020, 1, 1), D(2020, 1, 2), D(2020, 1, 3), D(2020, 1, 6)], [0.0, 1.0, 2.0, 3.0],
@@ -317,6 +329,10 @@ def rand_num(rng, dtype):
         return rng.choice([True, False])
     if dtype[0] == 'M':
         return rng.choice(TIMES)
+    if dtype == 'mY':
+        return rng.choice([t64(1, 'Y'), t64(2, 'Y'), t64(2, 'Y'), t64(0, 'Y'), pd.NaT])
+    if dtype == 'mM':
+        return rng.choice([t64(12, 'M'), t64(24, 'M'), t64(24, 'M'), t64(1, 'M'), t64(0, 'M'), pd.NaT])
     if dtype[0] == 'm':
         return rng.choice(SPANS)
     return rng.choice(['a', 'b', 'ab', ''])
@@ -349,7 +365,7 @@ def rand_val(rng, depth):
         return w(items) if c == 0 else DC(c, **items)
     if r < 0.85:
         shape = rand_shape(rng)
-        dtype = rng.choice(['i', 'f', 'f', 'e', 'b', 'U', 'o', 'Mns', 'Mus', 'MD', 'mns', 'mD'])
+        dtype = rng.choice(['i', 'f', 'f', 'e', 'b', 'U', 'o', 'Mns', 'Mus', 'MD', 'mns', 'mD', 'mY', 'mM'])
         if dtype == 'o':
             return A('o', shape, *[rand_val(rng, depth - 1) for _ in range(prod(shape))])
         return A(dtype, shape, *[rand_num(rng, dtype) for _ in range(prod(shape))])
@@ -431,6 +447,12 @@ def mutate(rng, sx):
             to = rng.choice(['Mns', 'Mus', 'Ms', 'MD', 'o', 'o', 'i', 'i'])
             if to == 'i' and all(c.startswith('T:') for c in cells):        # what M8[ns].astype(object) holds: ns since 1970
                 return ['A', 'i', shape] + ['I:%d' % ((int(c[2:]) - proto.dt2us(D(1970, 1, 1))) * 1000) for c in cells]
+            return ['A', to if to != 'i' else 'o', shape] + cells
+        if r < 0.6 and dtype in ('mY', 'mM'):
+            # years as months (exact), as objects, and as the int array of the counts (what numpy's == compares them with)
+            to = rng.choice(['mM', 'o', 'i'])
+            if to == 'i' and all(c.startswith('m8') for c in cells):
+                return ['A', 'i', shape] + ['I:' + c.split(':')[1] for c in cells]
             return ['A', to if to != 'i' else 'o', shape] + cells
         if r < 0.6 and dtype[0] == 'm':
             to = rng.choice(['mns', 'mus', 'mD', 'o', 'i'])
